@@ -25,6 +25,10 @@ SHAPES = {
     "Optional[str]": [NONE, "x"],
     "Literal['x', 'y']": [ABSENT, "x"],
     "Literal['http1', 'adam_w', 'q-r']": [ABSENT, "adam_w"],
+    "Literal['a.c', 'b']": [ABSENT, "a.c"],
+    "Literal['a|b', 'c']": [ABSENT, "c"],
+    "Literal['(x', 'c+']": [ABSENT, "(x"],
+    "Literal[\"it's\", 'c']": [ABSENT, "c"],
     "Literal[0, 1, 2]": [ABSENT, 1],
     "List[str]": [ABSENT],
     "Union[int, str]": [ABSENT, 3],
